@@ -260,3 +260,57 @@ if __name__ == "__main__":
                 else:
                     print("     variant", cfg.nshow(f[1]), f[3], f[4])
             print("     ->", cfg.nshow(ret) if ret else None)
+
+
+# ---------------------------------------------------------------------------------------------- effects through &mut
+def _rooted_at_arg(e, depth=0):
+    """The argument index an lvalue expression is rooted at (through deref / field / downcast / ref), or None."""
+    while depth < 40 and isinstance(e, tuple):
+        depth += 1
+        if e[0] == "arg":
+            return e[1]
+        if e[0] in ("deref", "ref", "field", "down", "index"):
+            e = e[1]
+            continue
+        if e[0] == "upd":
+            e = e[1]
+            continue
+        return None
+    return None
+
+
+def effects(db, fn, path):
+    """Writes through reference arguments along a path, in order:
+       ('assign', target_expr, value_expr)         for `(*p).f = v` with p derived from a reference argument
+       ('call', callee dict, [arg exprs], block)   for calls that receive a `&mut` place derived from a reference argument
+    Expressions are resolved along the path (arguments appear as ('arg', n))."""
+    bl = fn["blocks"]
+    out = []
+    for pi, b in enumerate(path):
+        blk = bl[b]
+        for sj, st in enumerate(blk["s"]):
+            if st[0] != "=":
+                continue
+            local, proj = st[1]
+            if "*" not in proj:
+                continue
+            tgt = resolve(fn, _place(fn, st[1]), path, pi, sj)
+            if _rooted_at_arg(tgt) is None:
+                continue
+            val = resolve(fn, _rv(fn, st[2]), path, pi, sj)
+            out.append(("assign", tgt, val))
+        t = blk["t"]
+        if t[0] == "call" and pi + 1 < len(path):
+            args = [resolve(fn, _op(fn, a), path, pi, INF) for a in t[2]]
+            if any(peel_ref_mut(a) is not None for a in args):
+                out.append(("call", t[1], args, b))
+    return out
+
+
+def peel_ref_mut(e):
+    """If e is a reference to a place rooted at an argument (i.e. it may be written through), the argument index."""
+    if isinstance(e, tuple) and e[0] == "ref":
+        return _rooted_at_arg(e[1])
+    if isinstance(e, tuple) and e[0] == "arg":
+        return None
+    return None
